@@ -489,6 +489,7 @@ func (lr *lockRun) step(rc *RunCtx, i int) {
 			jins[k] = JProof{Amount: p.Amount, ID: p.ID, Secret: p.Secret, C: p.C, Witness: p.Witness}
 		}
 		kind := "swap"
+		internalMelt := useMelt && T.Chance("att.meltinternal", 1, 3)
 		rc.S.BeginEpisode()
 		rc.S.Run1(fmt.Sprintf("%s.att%d", m.name("lock"), a), W.Ext, func() {
 			if useMelt {
@@ -497,8 +498,18 @@ func (lr *lockRun) step(rc *RunCtx, i int) {
 				if amt == 0 {
 					amt = 1
 				}
-				inv := W.LN.NewExternalInvoice(amt * 1000)
-				q, _ := m.Atk.ReqMeltQuote(mint, inv.Bolt11, 0)
+				bolt := ""
+				if internalMelt {
+					// the invoice of a mint quote of this very mint: settled internally, no payment leaves
+					if mq, _ := m.Atk.ReqMintQuote(mint, amt, false); mq != nil {
+						bolt = mq.Request
+						kind = "melt-internal"
+					}
+				}
+				if bolt == "" {
+					bolt = W.LN.NewExternalInvoice(amt * 1000).Bolt11
+				}
+				q, _ := m.Atk.ReqMeltQuote(mint, bolt, 0)
 				if q == nil || q.Amount+q.Reserve+fee > SumH(ins) {
 					return
 				}
@@ -524,9 +535,7 @@ func (lr *lockRun) step(rc *RunCtx, i int) {
 			continue
 		}
 		accepted := r.OK()
-		if kind == "melt" && accepted {
-			accepted = true
-		}
+		_ = internalMelt
 		rc.S.Probe(lr.prop + "_attempt_" + verdict.String())
 		rc.S.Probe(fmt.Sprintf("%s_wv_%02d", lr.prop, wv))
 		rc.Nontrivial = true
